@@ -476,3 +476,49 @@ def _entry_points(ptype, tag):
 
 _entry_points("YAMLPath", "path")
 _entry_points("str", "text")
+
+
+# ---------------------------------------------------------------------------------------------------
+# set_value: every gathered match is changed, once, to the given value (C03)
+# ---------------------------------------------------------------------------------------------------
+@contract(PR + "_apply_change", props=["C03"])
+class ApplyChange:
+    """ASSUMED here (the change itself -- replacement by identity through all aliases, value formats, tags -- is checked
+    bounded by rtc/c03): it edits the document and may refuse with a YAMLPathException."""
+    assumed = True
+    notes = "the node replacement (Processor._update_node, Nodes.make_new_node) is bounded-only: rtc/c03"
+    modifies = ["*"]
+    raises = ["YAMLPathException"]
+    opts = {"event": "('apply', node_coord, value)"}
+
+
+def _set_value(ptype, tag):
+    @contract(PR + "set_value", props=["C03", "C09"])
+    class SetValue:
+        """set_value gathers EVERY match of one driver first (the required one when mustexist, else the optional / creating
+        one, which is handed the value as its default) and then applies the change to each gathered match exactly once, with
+        the given value; mustexist and no match -> UnmatchedYAMLPathException (a YAMLPathException)."""
+        params = {"yaml_path": ptype, "kw_mustexist": "bool", "kw_pathsep": "PathSeparators"}
+        assume_fields = dict(PROC_FIELDS, **PATH_FIELDS)
+        requires = INV if ptype == "YAMLPath" else []
+        raises = ["YAMLPathException"]
+        loops = {
+            "for req_node in list(self._get_required_nodes(self.data, yaml_path))": {
+                "invariant": ["found_nodes == iters"],
+                "body_ensures": ["called('apply') == 1 and call_event('apply')[1] is req_node and same(call_event('apply')[2], value)"]},
+            "for node_coord in list(self._get_optional_nodes(self.data, yaml_path, value))": {
+                "body_ensures": ["called('apply') == 1 and call_event('apply')[1] is node_coord and same(call_event('apply')[2], value)"]},
+        }
+        ensures = [
+            "implies(self.data is None, called('required') == 0 and called('optional') == 0)",       # a null document is refused
+            "implies(self.data is not None and kw_mustexist, called('required') == 1 and called('optional') == 0 "
+            "and call_event('required')[1] is self.data and yield_count('required') >= 1)",
+            "implies(self.data is not None and not kw_mustexist, called('optional') == 1 and called('required') == 0 "
+            "and call_event('optional')[1] is self.data)",
+        ]
+        opts = dict(SEG_INV)
+    SetValue.__name__ = "SetValue_" + tag
+
+
+_set_value("YAMLPath", "path")
+_set_value("str", "text")
